@@ -87,7 +87,7 @@ CONTAINER_CTORS = {"list", "tuple", "dict", "set", "frozenset", "sorted", "rever
 DEEP_COPIES = {"deepcopy"}
 SHALLOW_COPIES = {"copy"}
 # third-party functions that mutate an argument: name -> index of the mutated argument
-EXTERNAL_ARG_MUTATORS = {"fonts_to_quadratic": 0, "font_to_quadratic": 0, "glyphs_to_quadratic": 0}
+EXTERNAL_ARG_MUTATORS = {"fonts_to_quadratic": 0, "font_to_quadratic": 0, "glyphs_to_quadratic": 0, "glyph_to_quadratic": 0}
 STOP_BY_NAME = {"get", "items", "keys", "values", "update", "pop", "append", "extend", "add", "remove", "clear", "copy",
                 "insert", "index", "sort", "join", "split", "strip", "format", "startswith", "endswith", "replace",
                 "lower", "upper", "title", "encode", "decode", "setdefault", "discard", "difference", "intersection",
